@@ -4,6 +4,8 @@ depth budget) `input length / 5 + 1` is never exhausted. -/
 namespace GeosModel.WKB
 open GeosModel
 
+variable {arc : ArcOracle}
+
 theorem readByte_len {bs : List UInt8} {b : UInt8} {r : List UInt8} (h : readByte bs = .ok (b, r)) :
     r.length + 1 = bs.length := by
   cases bs with
@@ -210,7 +212,7 @@ theorem checkContig_err (gs : List G) (e : Err) (h : checkContig gs = .error e) 
       · simp only [Except.error.injEq] at h; rw [← h]; simp
 
 theorem readBody_good (L : Nat) (rd : Order → List UInt8 → GRes) (hrd : RdGood L rd) (h : Hdr) (bs : List UInt8)
-    (hb : bs.length ≤ L) : Good3 bs (readBody rd h bs) := by
+    (hb : bs.length ≤ L) : Good3 bs (readBody arc rd h bs) := by
   cases hk : h.kind
   case point =>
     simp only [readBody, hk]
@@ -235,7 +237,7 @@ theorem readBody_good (L : Nat) (rd : Order → List UInt8 → GRes) (hrd : RdGo
     | error e => simp only [h1, Good, Good3] at i1 ⊢; exact i1
     | ok v =>
       obtain ⟨s, b⟩ := v; simp only [h1, Good] at i1
-      by_cases hok : circOK s = true
+      by_cases hok : circOK arc s = true
       · simp only [hok, if_true, Good3]; exact i1
       · simp [hok, Good3]
   case polygon =>
@@ -372,7 +374,7 @@ theorem readHeader_good (o : Order) (bs : List UInt8) :
 /-- **fuel = recursion-depth budget**: with more than `length / 5` levels allowed the reader never runs
 out, and it consumes its input monotonically -/
 theorem readGeom_good : ∀ (fuel : Nat) (o : Order) (bs : List UInt8), bs.length < 5 * fuel →
-    Good3 bs (readGeom fuel o bs)
+    Good3 bs (readGeom arc fuel o bs)
   | 0, o, bs, h => by omega
   | fuel + 1, o, bs, h => by
     simp only [readGeom]
@@ -383,16 +385,16 @@ theorem readGeom_good : ∀ (fuel : Nat) (o : Order) (bs : List UInt8), bs.lengt
       obtain ⟨hd, b1⟩ := v
       simp only [h1] at hh
       simp only
-      have hrd : RdGood b1.length (readGeom fuel) := fun o x hx => readGeom_good fuel o x (by omega)
-      have := readBody_good b1.length (readGeom fuel) hrd hd b1 (Nat.le_refl _)
-      cases h2 : readBody (readGeom fuel) hd b1 with
+      have hrd : RdGood b1.length (readGeom arc fuel) := fun o x hx => readGeom_good fuel o x (by omega)
+      have := readBody_good (arc := arc) b1.length (readGeom arc fuel) hrd hd b1 (Nat.le_refl _)
+      cases h2 : readBody arc (readGeom arc fuel) hd b1 with
       | error e => simp only [h2, Good3] at this ⊢; exact this
       | ok v2 => obtain ⟨r, o2, b2⟩ := v2; simp only [h2, Good3] at this ⊢; omega
 
-theorem read_fuel_ok (bs : List UInt8) : read bs ≠ .error .fuel := by
-  have := readGeom_good (bs.length + 1) .le bs (by omega)
+theorem read_fuel_ok (bs : List UInt8) : read arc bs ≠ .error .fuel := by
+  have := readGeom_good (arc := arc) (bs.length + 1) .le bs (by omega)
   simp only [read]
-  cases h : readGeom (bs.length + 1) .le bs with
+  cases h : readGeom arc (bs.length + 1) .le bs with
   | error e => simp only [h, Good3] at this; simpa using this
   | ok v => obtain ⟨⟨g, s⟩, o, b⟩ := v; simp
 
